@@ -45,6 +45,17 @@ func aolRules(p *Prog, r *Report, clause string, want func(tag string) bool) *ao
 				n++
 				r.OK(kp("FAMILY", FuncName(a.Fn)), "accessor family agreement", p.FnPos(a.Fn),
 					fmt.Sprintf("%s %s under %s with key type %s", a.Op, f, a.Prefix, a.KeyType))
+				if a.Op == "Iterator" {
+					// list accessors return every entry under the prefix: the appends run on every iteration
+					checkUnconditionalLoopEffect(p, r, kp("LOOP", FuncName(a.Fn)+"#every-entry-listed"), a.Fn, func(in ssa.Instruction) bool {
+						c, ok := in.(*ssa.Call)
+						if !ok {
+							return false
+						}
+						b, ok := c.Call.Value.(*ssa.Builtin)
+						return ok && b.Name() == "append"
+					}, "the list accessor returns every entry it iterates over (no conditional skip)")
+				}
 				if a.Op != "Iterator" {
 					checkAccessorShape(p, r, kp("SHAPE", FuncName(a.Fn)), "unconditional single operation on the marshalled parameter / unmarshalled store value", a.SO, 1)
 				}
